@@ -57,6 +57,8 @@ struct Judged {
     detail: String,
     request: String,
     nontrivial: bool,
+    /// the two parse oracles (format the output once more / rustc_parse directly) give different answers
+    oracles_disagree: bool,
 }
 
 /// a run inside the property's quantifier: nothing was REPORTED (an internal macro-rewrite failure - the macro call is
@@ -81,18 +83,29 @@ fn judge(cases: &[Case], timeout: Duration) -> Vec<Judged> {
     }
     let answers = run_model(&reqs, jobs());
     let r2 = pool::run_jobs(&jobs2, jobs(), timeout);
-    let mut res: Vec<Judged> = cases.iter().map(|c| Judged { id: c.id.clone(), verdict: "skipped", detail: String::new(), request: String::new(), nontrivial: false }).collect();
+    // second, independent parse oracle: the compiler's parser run directly (not through rustfmt) on input and output
+    let ed = |c: &Case| cfg_get(&c.cfg, "edition").unwrap_or("2015").to_string();
+    let mut texts: Vec<(String, String)> = vec![];
+    for &i in &idx {
+        texts.push((cases[i].src.clone(), ed(&cases[i])));
+        texts.push((r1[i].out.clone(), ed(&cases[i])));
+    }
+    let parsed = crate::astpp::parse_ok_batch(&texts, jobs());
+    let mut res: Vec<Judged> = cases.iter().map(|c| Judged { id: c.id.clone(), verdict: "skipped", detail: String::new(), request: String::new(), nontrivial: false, oracles_disagree: false }).collect();
     for (k, &i) in idx.iter().enumerate() {
         let a = &answers[k];
         let parses = match &r2[k].status { Status::Ok => !r2[k].flags[1], Status::Timeout | Status::Infra(_) => true, _ => false };
+        let (in_ok, out_ok) = (parsed[2 * k], parsed[2 * k + 1]);
         let (v, d) = if a != "ok" {
             ("not-equivalent", a.clone())
         } else if !parses {
             ("output-does-not-parse", format!("{:?}", r2[k].status))
+        } else if in_ok && !out_ok {
+            ("output-does-not-parse", "rustc_parse accepts the input and rejects the output".to_string())
         } else {
             ("ok", String::new())
         };
-        res[i] = Judged { id: cases[i].id.clone(), verdict: v, detail: d, request: reqs[k].clone(), nontrivial: r1[i].out != cases[i].src };
+        res[i] = Judged { id: cases[i].id.clone(), verdict: v, detail: d, request: reqs[k].clone(), nontrivial: r1[i].out != cases[i].src, oracles_disagree: in_ok && (parses != out_ok) };
     }
     res
 }
@@ -161,6 +174,9 @@ pub fn run(tier: &str, seed: u64, out: &Path) -> i32 {
         let mut n_skip = 0usize;
         for chunk in cases.chunks(20000) {
             for j in judge(chunk, Duration::from_secs(30)) {
+                if j.oracles_disagree {
+                    eprintln!("parse-oracles-disagree\t{}\t{}", j.id, j.verdict);
+                }
                 match j.verdict {
                     "not-equivalent" | "output-does-not-parse" => println!("{}\t{}\t{}", j.id, j.verdict, show_diff(&j.detail)),
                     "ok" => n_ok += 1,
@@ -211,6 +227,9 @@ pub fn run(tier: &str, seed: u64, out: &Path) -> i32 {
     let mut distinct = HashSet::new();
     for (c, j) in chosen.iter().zip(res.iter()) {
         o.count(&format!("{}:{}", fam_of(&c.id), j.verdict));
+        if j.oracles_disagree {
+            o.count("parse-oracles-disagree");
+        }
         match j.verdict {
             "ok" => {
                 programs += 1;
